@@ -295,7 +295,7 @@ theorem split_of_non_atomic (s : Str) (h : isAtomic s = false) :
   refine ⟨hs, ?_⟩
   unfold Compound.invertPower
   rw [hs]
-  simp [invertTable.1]
+  simp [invertPower_branch_table.1]
 
 /-- `is_compound` accepts exactly the strings that contain two table atoms joined by `*` or `/` (it searches,
 so anything may stand in front and behind) -/
@@ -315,6 +315,17 @@ theorem si_exact (s : Str) :
 theorem sanitizer_atoms (s a : Str) (ha : ValidAtom a) (hs : removeBlanks s = a) :
     sanitizer a = a ∧ sanitizer s = a ∧ isSi (sanitizer s) = true :=
   ⟨sanitizer_atom_fixed a ha, (sanitizer_blanked_atom s a ha hs).1, (sanitizer_blanked_atom s a ha hs).2⟩
+
+/-- a product/quotient of table atoms written with blanks around the separators (`mV / Hz`) is, after the
+clean-up, the blank-free sequence, which is recognised as compound and SI -/
+theorem sanitizer_compounds (a₀ : Str) (l : List (Str × Char × Str × Str)) (ha : ValidAtom a₀)
+    (hl : ValidPadded l) (hne : l ≠ []) :
+    sanitizer (joinPadded a₀ l) = joinCompound a₀ (stripPads l) ∧
+    isCompound (sanitizer (joinPadded a₀ l)) = true ∧ isSi (sanitizer (joinPadded a₀ l)) = true := by
+  have h := sanitizer_padded a₀ l ha hl
+  have hne' : stripPads l ≠ [] := by cases l <;> simp_all [stripPads]
+  rw [h]
+  exact ⟨rfl, compound_seq a₀ (stripPads l) ha (validSeq_stripPads l hl) hne'⟩
 
 /-- the clean-up depends on a string only through its de-blanked form -/
 theorem sanitizer_blanks (s : Str) : sanitizer s = sanitizer (removeBlanks s) := sanitizer_removeBlanks s
